@@ -18,8 +18,30 @@ def main(run: Run):
     run.functions["amaranth_soc.wishbone.bus.Arbiter.elaborate"] = "per-configuration (bounded: N, features, granularities), all inputs/states/time"
     run.functions["amaranth_soc.wishbone.bus.Arbiter.add"] = "exercised (constructor refusals counted)"
     run_configs(run, __name__, cfgs, must_accept=True)
+    # L1, for ALL N: the grant statements issued by the real Arbiter.elaborate() (pyvc with recording hardware stubs)
+    from ..pyvc.driver import discharge_all
+    from ..pyvc.engine import Unsupported
+    from ..common import BASE_ASSUMPTIONS_L1
+    try:
+        from contracts import arbiter_l1
+        fv = arbiter_l1.verify_arbiter_grant()
+        run.functions["amaranth_soc.wishbone.bus.Arbiter.elaborate [grant statements, all N]"] = \
+            f"proved ({fv.paths} paths, {len(fv.obs)} obligations): for every N and every owner g the loops issue `If(requests[v]): grant := v` for " \
+            "v = g-1..0 then N-1..g+1, under If(~bus_busy) > Switch(grant) > Case(g), and nowhere else"
+        run.require("wishbone.bus.Arbiter.elaborate[grant]::position-in-program-order", "wishbone.bus.Arbiter.elaborate[grant]::every-other-initiator-covered",
+                    "wishbone.bus.Arbiter.elaborate[grant]::busy-condition")
+        run.assumptions += BASE_ASSUMPTIONS_L1 + [
+            "all-N argument: (i) pyvc: the statement schedule of the source (above); (ii) Lean, Arbiter.lean last_wins_is_next / "
+            "nobody_else_no_assignment: with that schedule the LAST assignment whose condition holds picks the requester closest after the owner; "
+            "(iii) ASSUMED: Amaranth's semantics that the last active assignment to a register in program order wins and an inactive "
+            "Switch/Case/If leaves it unchanged - validated for every generated N by the per-configuration clause next_owner_closest",
+            "the request/response fan-out of the second Switch is not part of the all-N contract (C08, per configuration)"]
+        discharge_all(run, fv.obs, timeout_ms=20000)
+    except Unsupported as e:
+        run.functions["amaranth_soc.wishbone.bus.Arbiter.elaborate [grant statements, all N]"] = f"unsupported: {e} (the per-N clauses decide)"
+        run.bounded_notes.append(f"Arbiter.elaborate grant schedule: outside the pyvc subset on this tree ({e}); per-N clauses decide")
     from ..lean_check import status as _lean_status
-    run.extra["lean_lemmas"] = {"files": _lean_status(), "used": "Arbiter.lean: rank_decreases, served_within (all N, on the specification next-owner function)"}
+    run.extra["lean_lemmas"] = {"files": _lean_status(), "used": "Arbiter.lean: rank_decreases, served_within, pos, last_wins_is_next, nobody_else_no_assignment (all N)"}
     for _f, _st in run.extra["lean_lemmas"]["files"].items():
         if _st != "accepted":
             run.assumptions.append(f"Lean lemma file {_f} is '{_st}': the SMT axioms it backs are TRUSTED in this run")
